@@ -340,9 +340,12 @@ def run(ctx):
     n1 = r1(prog, rep)
     n2 = r2(prog, rep)
     r4(ctx)
+    import c07
+    c07.r6(ctx, 'C17.R5')      # REJECT mis-detection disables the unmatched-rule warnings: the case tests behind the detection
     rep.setcount('translation_units', len(prog.modules)); rep.setcount('functions_analysed', len(fns(prog)))
     rep.setcount('readers_of_env_nowarn', n1); rep.setcount('rule_useful_instances', n2)
     rep.floor('C17.R1', 2, 'env.nowarn is read in line_warning() and flexend()')
+    rep.floor('C17.R5', 2, 'all_upper, all_lower')
     rep.floor('C17.R4', 3, 'command-line case + %option warn / nowarn')
     rep.floor('C17.R2', 8, '2 pointer stores, 3 element stores, new_rule clear, 2 warnings')
     rep.undecided += ['that flex warns exactly for the rules no input can select (correctness of the subset construction and of snstods\' choice)',
